@@ -1,0 +1,18 @@
+//! Verification hook (compiled only with `--cfg memcrs_verif`): lets a test driver
+//! observe and order the store's steps on shared state. Without an installed
+//! callback `yield_point` does nothing.
+use std::sync::RwLock;
+
+type Hook = Box<dyn Fn(&'static str) + Send + Sync>;
+
+static HOOK: RwLock<Option<Hook>> = RwLock::new(None);
+
+pub fn set_hook(hook: Option<Hook>) {
+    *HOOK.write().unwrap() = hook;
+}
+
+pub fn yield_point(name: &'static str) {
+    if let Some(hook) = HOOK.read().unwrap().as_ref() {
+        hook(name)
+    }
+}
